@@ -22,6 +22,24 @@ def slug(s): return re.sub(r'[^A-Za-z0-9]+', '-', s).strip('-')[:90]
 def run_units(units, extra_args=(), timeout=3000, extra_env=None):
     """run the verification units in parallel sub-processes; returns {unit: report}"""
     tmp = tempfile.mkdtemp(prefix='pyvc-'); procs = {}; out = {}
+    cache = os.environ.get('PYVC_CACHE')          # only set by tools/seedtest.py: the 20 checks of one seed test share unit results for the SAME source state
+    ckey = None
+    if cache:
+        hsh = hashlib.sha256()
+        for base in (os.path.join(REPO, 'taskiq'), os.path.join(ROOT, 'specs'), os.path.join(ROOT, 'pyvc')):
+            for dp, dn, fn in sorted(os.walk(base)):
+                for f in sorted(fn):
+                    if f.endswith('.py'): hsh.update(open(os.path.join(dp, f), 'rb').read())
+        ckey = hsh.hexdigest()[:16] + '-' + hashlib.sha1(repr((extra_args, sorted((extra_env or {}).items()))).encode()).hexdigest()[:8]
+        os.makedirs(cache, exist_ok=True)
+        for u in list(units):
+            cf = os.path.join(cache, f"{u}-{ckey}.json")
+            for _ in range(1200):          # another check of the same seed test may be computing it right now
+                if os.path.exists(cf) or not os.path.exists(cf + '.lock'): break
+                time.sleep(0.5)
+            if os.path.exists(cf):
+                out[u] = json.load(open(cf)); units = [x for x in units if x != u]
+            else: open(cf + '.lock', 'w').close()
     try:
         env = dict(os.environ); env['PYTHONPATH'] = ROOT; env.setdefault('PYVC_PROCS', str(max(4, 16 // max(1, len(units))))); env.update(extra_env or {})
         for u in units:
@@ -33,6 +51,9 @@ def run_units(units, extra_args=(), timeout=3000, extra_env=None):
                 p.kill(); out[u] = {'unit': u, 'status': 'crash', 'error': 'unit timed out'}; continue
             if os.path.exists(f): out[u] = json.load(open(f))
             else: out[u] = {'unit': u, 'status': 'crash', 'error': (se or so)[-2000:]}
+            if cache:
+                cf = os.path.join(cache, f"{u}-{ckey}.json"); json.dump(out[u], open(cf + '.tmp', 'w')); os.replace(cf + '.tmp', cf)
+                if os.path.exists(cf + '.lock'): os.unlink(cf + '.lock')
     finally:
         shutil.rmtree(tmp, ignore_errors=True)
     return out
@@ -108,7 +129,7 @@ def main():
     supplements = []
     for sup, fut in sup_fut:
         r = fut.result()
-        supplements.append({'name': sup['name'], 'bounded': True, 'bound': sup['bound'], 'driver': sup['driver'], 'args': sup.get('args', {}), 'result': {kx: vx for kx, vx in r.items() if kx != 'failures'}, 'failures': r.get('failures', [])[:20]})
+        supplements.append({'name': sup['name'], 'bounded': True, 'bound': sup['bound'], 'driver': sup['driver'], 'args': sup.get('args', {}), 'result': {kx: vx for kx, vx in r.items() if kx != 'failures'}, 'failures': r.get('failures', [])})
     # ---- verdicts
     known = [kf for kf in load_known() if kf.get('property') == pid and kf.get('status') == 'open']
     refuted = collections.OrderedDict()
@@ -209,7 +230,7 @@ def main():
                        'discharged_by': dict(by_solver), 'solver_ms_total': sum(o['ms'] for o in goals),
                        'functions_under_contract': functions, 'unit_info': infos, 'samples': samples,
                        'vacuity': {'reachability_guards': len(guards), 'all_reachable': not vac},
-                       'dropped_constructs': sorted(dropped), 'bounded_supplements': supplements,
+                       'dropped_constructs': sorted(dropped), 'bounded_supplements': [dict(s_, failures=s_['failures'][:10], failures_total=len(s_['failures'])) for s_ in supplements],
                        'known_findings_reported': nknown, 'thorough': thorough,
                        'explanation': spec.get('explanation', '')},
           'assumptions': spec.get('assumptions', []) + ["Python semantics as encoded by pyvc (DESIGN 2.2): evaluation order, truthiness, exceptions, attribute reads are pure"],
